@@ -224,7 +224,9 @@ func dischargeAll(ctxs []*Ctx, workdir string, secs int, requireAll bool, par in
 	// final and is never retried.
 	var again []job
 	for _, j := range jobs {
-		if !j.o.Cover && j.o.Result != "unsat" && j.o.Result != "sat" {
+		// (reachability covers too: for them `sat` is the wanted answer, and a time-out under load would
+		// otherwise be reported as a vacuity alarm)
+		if j.o.Result != "unsat" && j.o.Result != "sat" {
 			again = append(again, j)
 		}
 	}
